@@ -3,7 +3,7 @@
 # Confirms a seeded change independently (applies, suite passes, demo fails with / passes without) and runs our checks on it.
 D="$(realpath "$1")"; K="$2"; TIER="$3"; shift 3
 # layouts: <dir>/patch<K>.diff + demo<K>.py (as delivered) or seeded/<id>-<k>/patch.diff + demo.py (as kept; pass K=-)
-if [ -f "$D/patch.diff" ]; then P="$D/patch.diff"; DEMO="$D/demo.py"; else P="$P"; DEMO="$DEMO"; fi
+if [ -f "$D/patch.diff" ]; then P="$D/patch.diff"; DEMO="$D/demo.py"; else P="$D/patch$K.diff"; DEMO="$D/demo$K.py"; fi
 S="$(mktemp -d /tmp/vfseed_XXXXXX)"; rmdir "$S"
 git -C /repo worktree add -q --detach "$S" HEAD || exit 3
 trap 'git -C /repo worktree remove --force "$S" >/dev/null 2>&1; rm -rf "$S"' EXIT
